@@ -11,7 +11,7 @@ class C14(OptCheck):
     technique = "Coq proof: prepare resets every reachable object state, so the k-th call equals a fresh parser's call for all histories + differential run of call histories on one parser object against the spec of each vector alone"
     level_text = "Theorems: every reachable option-object state is aligned and prepare() resets it, so for ALL histories (also with per-call environments) the k-th call equals a fresh parser's call; outcome = spec of (declaration, vector, environment). The driver additionally compares each call with a freshly built parser inside the C++ process"
     level_note = "trusted: Coq kernel; ExtrOcamlBasic extraction + OCaml; the differential harness (generators, C++ driver through the public API under ASan/UBSan, canonical observation lines); gen/tr_vocab.py for C11. Theorem hypotheses: wf_decl (names non-empty, no '=', not starting with '-', pairwise distinct; letters neither '-' nor '='), no_clash (known finding K1: no toggle foo next to anything called no-foo), aligned state (every reachable state is: C14_reachable_aligned). Modelled, not verified: std::map name order, std::multiset::count on letters, std::getline at ';', getenv, object lifetimes, int overflow of counts (model uses Z), operator>> for typed access (exercised with as<long> on decimal texts only). The tie model=code is bounded-exhaustive + sampled, not proved"
-    rule = ("core stream + histories: 2-4 argument vectors (successful and failing ones in any order) parsed one after another on ONE parser "
+    rule = ("core stream (exhaustive short vectors over declaration-relative tokens for 12 declaration shapes; random vectors, random declarations and environments; 'steps' histories on ONE long-lived parser object — several calls, environment changes, further declarations, move construction, move assignment from a differently declared parser — each call also made on a freshly built identical parser; declarations spread over named groups in a hash-derived order) + histories: 2-4 argument vectors (successful and failing ones in any order) parsed one after another on ONE parser "
             "object; each call's result is compared with the model's history run and judged by the spec of that vector alone (= fresh parser); "
             "exhaustive pairs/triples over 12 vectors for 3 declarations + random histories; non-trivial = history of >= 2 calls; distinct = distinct case line")
 
